@@ -1255,8 +1255,9 @@ def gen_validate_case(rng, cid):
             site = rng.choice(SITES)
             if inject_dangling(rng, store, pkgs, site):
                 faults.append({"kind": "dangling", "site": site})
-        elif r < 0.53 and store["criteria"]:
-            victim = rng.choice(sorted(store["criteria"]))
+        elif r < 0.53 and [c for c in store["criteria"] if not c.startswith(("fault-", "loop-", "many-"))]:
+            # (never a definition that an earlier fault of this case injected)
+            victim = rng.choice(sorted(c for c in store["criteria"] if not c.startswith(("fault-", "loop-", "many-"))))
             del store["criteria"][victim]
             faults.append({"kind": "deleted-definition", "name": victim})
         elif r < 0.60:
@@ -1290,8 +1291,15 @@ def gen_validate_case(rng, cid):
                 pf["criteria"]["pl-b"] = {"description": "x", "implies": ["pl-a"]}
                 faults.append({"kind": "peer-table-cycle"})
             else:
+                # entries of a peer naming criteria the peer does not define: alone, or mixed with known ones; in audits
+                # and in wildcard audits (they are to be skipped / stripped, never to crash or to count)
                 crate = rng.choice(sorted({p["name"] for p in pkgs}))
-                pf["audits"].setdefault(crate, []).append({"kind": "full", "version": "1.0.0", "criteria": ["peer-unknown"], "notes": "p"})
+                crit = rng.choice([["peer-unknown"], ["safe-to-run", "peer-unknown"], ["peer-unknown", "safe-to-deploy", "peer-unknown-2"]])
+                if rng.random() < 0.5:
+                    pf["audits"].setdefault(crate, []).append({"kind": "full", "version": "1.0.0", "criteria": crit, "notes": "p"})
+                else:
+                    pf["wildcard_audits"].setdefault(crate, []).append(
+                        {"user-id": rng.randint(1, 3), "start": "2022-01-01", "end": "2023-06-01", "criteria": crit, "notes": "p"})
                 faults.append({"kind": "peer-unknown-criteria"})
         else:
             text_fault = rng.choice(["truncate", "unknown-field", "wrong-type", "junk-peer"])
